@@ -69,14 +69,17 @@ func migrateLegacyTemplateAsString(template string, options *MigrateOptions) (st
 	shortFormAt := -1
 
 	for tokenType, token := scanner.Scan(); tokenType != excellent.EOF; tokenType, token = scanner.Scan() {
+		// only text that directly follows a short form expression can read as part of it
+		followsShortFormAt := shortFormAt
+		shortFormAt = -1
+
 		switch tokenType {
 		case excellent.BODY:
-			if shortFormAt >= 0 && continuesIdentifier(token) {
-				identifier := buf.String()[shortFormAt+1:]
-				buf.Truncate(shortFormAt)
+			if followsShortFormAt >= 0 && continuesIdentifier(token) {
+				identifier := buf.String()[followsShortFormAt+1:]
+				buf.Truncate(followsShortFormAt)
 				buf.WriteString("@(" + identifier + ")")
 			}
-			shortFormAt = -1
 
 			buf.WriteString(token)
 		case excellent.IDENTIFIER:
